@@ -119,10 +119,14 @@ static bool chunk_info_equals(void *user, const void *k, const void *c)
 		if (it->index == cmp->index)
 			break;
 	}
+	if (it != NULL)
+		VERIF_PROBE("frag_cmp_inflight");
 
 	if (it == NULL && proc->frag_block != NULL) {
 		if (proc->frag_block->index == cmp->index)
 			it = proc->frag_block;
+		if (it != NULL)
+			VERIF_PROBE("frag_cmp_current");
 	}
 
 	if (it == NULL) {
@@ -133,6 +137,7 @@ static bool chunk_info_equals(void *user, const void *k, const void *c)
 		}
 
 		it = proc->cached_frag_blk;
+		VERIF_PROBE("frag_cmp_reread");
 	}
 
 	if (cmp->offset >= it->size || (it->size - cmp->offset) < cmp->size) {
@@ -144,6 +149,12 @@ static bool chunk_info_equals(void *user, const void *k, const void *c)
 		proc->fblk_lookup_error = SQFS_ERROR_CORRUPTED;
 		return false;
 	}
+
+	if (memcmp(it->data + cmp->offset,
+		   proc->current_frag->data, cmp->size) != 0)
+		VERIF_PROBE("frag_cmp_differ");
+	else
+		VERIF_PROBE("frag_cmp_equal");
 
 	return memcmp(it->data + cmp->offset,
 		      proc->current_frag->data, cmp->size) == 0;
